@@ -14,11 +14,13 @@ def build(u):
     u.raw("pub mod messages {\nuse super::*;\n")
     u.item(m, "BlockAdded", "struct")
     u.raw("}\n")
-    u.raw("pub mod block_watcher {\nuse super::*;\nuse crate::anyhow::Result;\nuse crate::messages::BlockAdded;\nuse crate::mpsc::Receiver;\n")
+    u.raw("pub mod block_watcher {\nuse super::*;\nuse crate::anyhow::Result;\nuse crate::messages::BlockAdded;\nuse crate::mpsc::Receiver;\nuse crate::JoinHandle;\n")
     u.spec("height.rs")
     u.item(bw, "POLL_INTERVAL", "const")
     u.item(bw, "BlockWatcher", "struct")
-    u.impl(bw, "BlockWatcher", ["new", "new_block"], "block_watcher")
+    u.ghost_callees["c:poll_forever"] = "Tracked(w), Tracked(p)"
+    u.impl(bw, "BlockWatcher", ["new", "start", "new_block"], "block_watcher")
+    del u.ghost_callees["c:poll_forever"]
     u.raw("impl BlockWatcher {\n")
     im = bw.find("BlockWatcher", "impl", trait="BlockProvider")
     u.fn(bw, bw.find_fn_in(im, "current_height"), "block_watcher::BlockWatcher::current_height")
